@@ -22,14 +22,14 @@ Proof. destruct p; simpl; [auto|]. rewrite set_alias_paths. auto. Qed.
 
 (* resolveImportConflict, one package at a time *)
 Definition one_step (rec : rstate -> pref -> pref -> nat -> option rstate) (lvl : nat)
-           (st : option rstate) (p : pref) : option rstate :=
+           (st : option rstate) (p other : pref) : option rstate :=
   match st with
   | None => None
   | Some st =>
     let name := unique_name (ref_path st p) lvl in
     match search_import (rs_map st) name with
     | Some c =>
-      if ref_eqb (PIn (i_path c)) p then Some (assign st p name)
+      if ref_eqb (PIn (i_path c)) p || ref_eqb (PIn (i_path c)) other then Some (assign st p name)
       else rec st p (PIn (i_path c)) (S lvl)
     | None => Some (assign st p name)
     end
@@ -39,7 +39,7 @@ Lemma resolve_unfold f st a b lvl :
   resolve (S f) st a b lvl =
   if String.eqb (unique_name (ref_path st a) lvl) (unique_name (ref_path st b) lvl)
   then resolve f st a b (S lvl)
-  else one_step (resolve f) lvl (one_step (resolve f) lvl (Some st) a) b.
+  else one_step (resolve f) lvl (one_step (resolve f) lvl (Some st) a b) b a.
 Proof. reflexivity. Qed.
 
 Definition same_paths (s1 s2 : rstate) : Prop :=
@@ -49,13 +49,13 @@ Definition same_paths (s1 s2 : rstate) : Prop :=
 Lemma same_paths_trans a b c : same_paths a b -> same_paths b c -> same_paths a c.
 Proof. intros [A1 [B1 C1]] [A2 [B2 C2]]. repeat split; congruence. Qed.
 
-Lemma one_step_paths rec lvl s1 p s2 :
+Lemma one_step_paths rec lvl s1 p other s2 :
   (forall st a b l st', rec st a b l = Some st' -> same_paths st st') ->
-  one_step rec lvl (Some s1) p = Some s2 -> same_paths s1 s2.
+  one_step rec lvl (Some s1) p other = Some s2 -> same_paths s1 s2.
 Proof.
   intros REC. unfold one_step.
   destruct (search_import (rs_map s1) _) as [c|].
-  - destruct (ref_eqb _ p).
+  - destruct (ref_eqb _ p || ref_eqb _ other).
     + intros E. inversion E; subst. apply assign_paths.
     + apply REC.
   - intros E. inversion E; subst. apply assign_paths.
@@ -67,7 +67,7 @@ Lemma resolve_paths fuel st a b lvl st' :
 Proof.
   revert st a b lvl st'. induction fuel as [|f IH]; intros st a b lvl st'; [discriminate|].
   rewrite resolve_unfold. destruct (String.eqb _ _); [apply IH|].
-  destruct (one_step (resolve f) lvl (Some st) a) as [s1|] eqn:E1; [|discriminate].
+  destruct (one_step (resolve f) lvl (Some st) a b) as [s1|] eqn:E1; [|discriminate].
   intros E2. eapply same_paths_trans.
   - eapply one_step_paths; [exact IH|exact E1].
   - eapply one_step_paths; [exact IH|exact E2].
